@@ -27,18 +27,21 @@ theorem C17_scan (cfg : ScanCfg) (hsep : SepRespects cfg) (toks toks' : List Tok
     (h : ListRel (TokRel cfg) toks toks') : findNumbers cfg toks = findNumbers cfg toks' :=
   findNumbers_congr cfg hsep toks toks' h
 
-/-- an all-whitespace token is skipped whatever it is made of: pushing it leaves the scanner unchanged -/
+/-- an all-whitespace token (that does not declare itself "not part of a number": such a token is never
+skipped, it ends the number like any other hinted token) is skipped whatever it is made of: pushing it
+leaves the scanner unchanged -/
 theorem C17_ws_token (cfg : ScanCfg) (s : Scanner) (pos : Nat) (tok : Tok)
-    (h : tok.text.all cfg.cc.isWhitespace = true) : s.push cfg pos tok = .ok s := by
+    (h : tok.text.all cfg.cc.isWhitespace = true) (hn : tok.nan = false) : s.push cfg pos tok = .ok s := by
   unfold Scanner.push Scanner.isSkipped
-  simp [h]
+  simp [h, hn]
 
 /-- hence any two non-empty whitespace runs are interchangeable as tokens, and whitespace tokens can be
 inserted or removed anywhere without changing what is recognised (spans shift by the token count) -/
 theorem C17_ws_tokens_rel (cfg : ScanCfg) (a b : Tok) (ha : a.text.all cfg.cc.isWhitespace = true)
-    (hb : b.text.all cfg.cc.isWhitespace = true) (pos pos' : Nat) (s : Scanner) :
+    (hb : b.text.all cfg.cc.isWhitespace = true) (hna : a.nan = false) (hnb : b.nan = false)
+    (pos pos' : Nat) (s : Scanner) :
     s.push cfg pos a = s.push cfg pos' b := by
-  rw [C17_ws_token cfg s pos a ha, C17_ws_token cfg s pos' b hb]
+  rw [C17_ws_token cfg s pos a ha hna, C17_ws_token cfg s pos' b hb hnb]
 
 /-- **C17 (validation)**: validation depends on the text only through its whitespace-separated words -/
 theorem C17_validate (cc : CharClasses) (l : Lang) (s s' : Word)
